@@ -294,6 +294,9 @@ func (s *BaseNodeService) executeOperation(operation *types.Operation) error {
 		if err != nil {
 			return fmt.Errorf("failed to get fsm instance during operation processing: %w", err)
 		}
+		if fsm.FSMDump().Payload.DKGProposalPayload == nil {
+			return fmt.Errorf("round %s has not reached the key generation: nothing to store the public polynomial in", dkgID)
+		}
 		fsm.FSMDump().Payload.DKGProposalPayload.PubPolyBz = operation.ExtraData
 		dump, err := fsm.Dump()
 		if err != nil {
